@@ -228,7 +228,9 @@ def se23_case(draw):
             "kp": draw(v3(0.5, 5.0)), "at": [x * draw(st.sampled_from([0.0, 1.0, 5.0])) for x in draw(v3(-1.0, 1.0))],
             "trim": draw(st.sampled_from([0.0, 21.952])) if draw(st.booleans()) else draw(gens.fl(0.0, 40.0)),
             "z_i": draw(st.sampled_from([0.0, 2.0, -2.0])), "dt": 0.01, "degenerate": draw(st.integers(0, 4)) == 0,
-            "eps": draw(st.sampled_from([0.0, 1e-7, 5e-4, 2e-3]))}
+            "eps": draw(st.sampled_from([0.0, 1e-7, 5e-4, 2e-3])),
+            # direction of the eps offset away from the heading vector: up (0), sideways (pi/2) or in between
+            "eps_phi": draw(st.sampled_from([0.0, PI / 2, -PI / 2, PI / 4, -PI / 3, 2.5]))}
 
 
 def check_se23(case):
@@ -249,7 +251,10 @@ def check_se23(case):
         # steer the demanded force onto the heading vector with the feed-forward acceleration and zero trim
         trim = 0.0
         xC = np.array([math.cos(psi), math.sin(psi), 0.0])
-        want = 3.0 * (xC * math.cos(case["eps"]) + np.array([0, 0, 1.0]) * math.sin(case["eps"]))
+        yC = np.array([-math.sin(psi), math.cos(psi), 0.0])
+        phi = case.get("eps_phi", 0.0)
+        perp = np.array([0, 0, 1.0]) * math.cos(phi) + yC * math.sin(phi)
+        want = 3.0 * (xC * math.cos(case["eps"]) + perp * math.sin(case["eps"]))
         at = (want - (u[0:3] + u[3:6]) - np.array([0, 0, ml.ki_z * case["z_i"]])) / ml.m
     pterm = u[0:3] + u[3:6] + ml.m * at
     lim = 0.3 * ml.m * ml.g
